@@ -131,6 +131,10 @@ func (env *ExprEnv) callExpr(e *ast.CallExpr) Val {
 		if T == nil {
 			return env.fail("typeis: unknown type %s", exprString(e.Args[1]))
 		}
+		// an interface value is determined by its dynamic type and payload
+		if env.st != nil {
+			t.assume(env.st.pc, sOr(sEq(x.S, "0"), sEq(x.S, sApp(t.mkIf(), sApp(t.ifTag(), x.S), sApp(t.ifVal(), x.S)))))
+		}
 		return boolVal(sAnd(sNot(sEq(x.S, "0")), sEq(sApp(t.ifTag(), x.S), sInt(int64(t.eng.tagOf(T))))))
 	case "background": // the value returned by context.Background()
 		return Val{K: KIface, S: t.declare("ctx:background", "Int")}
